@@ -72,19 +72,24 @@ def branch_tables(net):
 
 
 def doc_flags(kw, table):
-    """the documented meaning of the keyword arguments for one table"""
+    """the documented meaning of the keyword arguments for one table: (include, respect_status, only);
+    include_X may be a bool or an iterable of labels (only = that list; an empty list includes nothing)"""
     k = KW.get(table, table + "s")
     inc = kw.get("include_" + k, True)
+    only = None
+    if not isinstance(inc, bool):
+        only = [int(x) for x in inc]
+        inc = len(only) > 0
     rsall = kw.get("respect_status_branches_all", None)
     resp = rsall if rsall in (True, False) else kw.get("respect_status_" + k, True)
-    return bool(inc), bool(resp)
+    return bool(inc), bool(resp), only
 
 
 def eff_flags(kw, table, ignored):
     k = KW.get(table, table + "s")
     if k in ignored:
         rsall = kw.get("respect_status_branches_all", None)
-        return True, (rsall if rsall in (True, False) else True)
+        return True, (rsall if rsall in (True, False) else True), None
     return doc_flags(kw, table)
 
 
@@ -130,7 +135,11 @@ def c_net(nr):
 
 
 def c_args(kw, nr, ignored):
-    fl = clist(["(%s, mkF %s %s)" % ((cstr(t),) + tuple(cbool(x) for x in eff_flags(kw, t, ignored))) for t, _ in nr["tables"]])
+    def one(t):
+        inc, resp, only = eff_flags(kw, t, ignored)
+        return "(%s, mkF %s %s %s)" % (cstr(t), cbool(inc), cbool(resp),
+                                       "None" if only is None else "(Some %s)" % clist([cz(x) for x in only]))
+    fl = clist([one(t) for t, _ in nr["tables"]])
     return "(mkArgs %s %s %s %s %s %s)" % (
         fl, cbool(kw.get("respect_status_valves", True)), cbool(kw.get("respect_status_junctions", True)),
         clist([cz(x) for x in (kw.get("nogojunctions") or [])]), clist([cz(x) for x in (kw.get("notravjunctions") or [])]),
@@ -195,9 +204,13 @@ def random_kwargs(rng, net, distance=False):
         return kw
     if rng.random() < 0.25:
         return kw                                                  # all defaults
+    labels = {KW.get(c.table_name(), c.table_name() + "s"): net[c.table_name()].index.tolist() for c in branch_tables(net)}
     for k in KW.values():
         if rng.random() < 0.2:
             kw["include_" + k] = rng.random() < 0.4
+        elif rng.random() < 0.12 and labels.get(k):
+            # include_X as a list of labels (any order, any subset, possibly empty)
+            kw["include_" + k] = [int(x) for x in rng.sample(labels[k], rng.randint(0, len(labels[k])))]
         if rng.random() < 0.25:
             kw["respect_status_" + k] = rng.random() < 0.5
     if rng.random() < 0.3:
@@ -316,9 +329,10 @@ class Runner:
             by_key.setdefault((t, l), []).append((u, v, w))
         closed = {b for t, rows in nr["tables"] if t == "valve" for (l, a, b, x, w, p) in rows if p and not x}
         for t, rows in nr["tables"]:
-            inc, resp = doc_flags(kw, t)
+            inc, resp, only = doc_flags(kw, t)
             k = KW.get(t, t + "s")
             for (l, a, b, act, w, pi) in rows:
+                inc_row = inc and (only is None or l in only)
                 got = by_key.get((t, l), [])
                 if pi:
                     if got:
@@ -326,10 +340,10 @@ class Runner:
                                       "valve %s is attached to pipe %s (et == 'pi') but the graph has the edge %s -> %s "
                                       "(pipe label read as a junction label)" % (l, b, got[0][0], got[0][1]), replay)
                     continue
-                if not inc:
+                if not inc_row:
                     if got:
                         ctx.violation({"fn": "create_nxgraph", "arg": "include_" + k},
-                                      "include_%s=False but the graph has the edge (%s, %s)" % (k, t, l), replay)
+                                      "include_%s=%r excludes (%s, %s) but the graph has its edge" % (k, kw.get("include_" + k), t, l), replay)
                     continue
                 ends_ok = a in jins and b in jins and a not in nogo and b not in nogo and \
                     (not rsj or (jins[a] and jins[b]))
